@@ -411,8 +411,10 @@ class TrafficRedirectIPv6(ExtendedCommunityIPv6):
     Uses IPv6 Address Specific Extended Community format (20 bytes).
     """
 
-    COMMUNITY_TYPE: ClassVar[int] = 0x80
-    COMMUNITY_SUBTYPE: ClassVar[int] = 0x0B
+    # RFC 8956 section 6: rt-redirect-ipv6 is the IPv6-Address-Specific Extended Community 0x000d (0x0002, which was
+    # packed, is an IPv6 route target; 0x800b, which was registered, is not assigned)
+    COMMUNITY_TYPE: ClassVar[int] = 0x00
+    COMMUNITY_SUBTYPE: ClassVar[int] = 0x0D
 
     def __init__(self, packed: Buffer) -> None:
         ExtendedCommunityIPv6.__init__(self, packed)
@@ -420,7 +422,9 @@ class TrafficRedirectIPv6(ExtendedCommunityIPv6):
     @classmethod
     def make_traffic_redirect_ipv6(cls, ip: str, asn: int) -> TrafficRedirectIPv6:
         """Create TrafficRedirectIPv6 from semantic values."""
-        packed = pack('!BB16sH', 0x00, 0x02, socket.inet_pton(socket.AF_INET6, ip), asn)
+        packed = pack(
+            '!BB16sH', cls.COMMUNITY_TYPE, cls.COMMUNITY_SUBTYPE, socket.inet_pton(socket.AF_INET6, ip), asn
+        )
         return cls(packed)
 
     @property
